@@ -266,6 +266,19 @@ pub fn judge(case: &Case) -> Outcome {
                 }
             }
         }
+        "c04.huge" => {
+            let rule = match huge_rule(&text) {
+                Some(r) => r,
+                None => return Outcome::Skip("unknown descriptor".into()),
+            };
+            match engine::load_text(&rule) {
+                Load::Ok(_) => accepted = true,
+                Load::Rejected(_) => {}
+                Load::Panicked(p) => return Outcome::Violation(format!("Rule::from_str panicked on the rule `{text}`: {p}")),
+            }
+            evals += 1;
+            labels.push("huge_pattern_text");
+        }
         "c04.fuzz_artifact" => {
             // the saved libFuzzer input is the reproducible unit: run the target binary on it
             let target = case.extra.get("target").and_then(|t| t.as_str()).unwrap_or("load_text");
@@ -293,6 +306,42 @@ pub fn judge(case: &Case) -> Outcome {
         evaluations: evals,
         labels,
     }
+}
+
+/// Rules whose pattern text is too large for one dense automaton (aho-corasick limits a DFA to
+/// 2^31 transitions; > 128 distinct byte values give a stride of 256, so 2^23 bytes of needles
+/// overflow it). The descriptor `form:bytes` keeps replay files small.
+pub fn huge_rule(desc: &str) -> Option<String> {
+    let (form, bytes) = desc.split_once(':')?;
+    let bytes: usize = bytes.parse().ok()?;
+    if bytes > (1 << 25) {
+        return None;
+    }
+    let body = |len: usize, salt: char| -> String {
+        let mut alphabet = String::new();
+        for c in (0x21u32..0x7f).chain(0xa1..0x17f) {
+            let ch = char::from_u32(c).unwrap();
+            if ch != '\'' && ch != '*' && ch != '"' && ch != '\\' {
+                alphabet.push(ch);
+            }
+        }
+        let mut s = String::new();
+        s.push(salt);
+        while s.len() < len {
+            s.push_str(&alphabet);
+        }
+        s
+    };
+    let wrap = |ident: String| format!("detection:\n  A:\n{ident}  condition: A\ntrue_positives: []\ntrue_negatives: []\n");
+    Some(match form {
+        // one list: the needles share an automaton at load time
+        "list" => wrap(format!("    foo:\n    - '*{}*'\n    - '*x*'\n", body(bytes, 'a'))),
+        "all_list" => wrap(format!("    all(foo):\n    - '*{}*'\n    - '*x*'\n", body(bytes, 'a'))),
+        "ci_single" => wrap(format!("    foo: 'i*{}*'\n", body(bytes, 'a'))),
+        // two entries that load as plain searches and are merged by shake
+        "two_entries" => wrap(format!("  - foo: '*{}*'\n  - foo: '*{}*'\n", body(bytes / 2, 'a'), body(bytes / 2, 'b'))),
+        _ => return None,
+    })
 }
 
 fn text_case(kind: &str, text: String) -> Case {
@@ -479,7 +528,8 @@ pub fn run(tier: &str, seed: u64) -> i32 {
         over the 14 symbols `a i * ? \" ' > < = - . 1 ( space` in each of three roles - condition, pattern value \
         (alone and in lists of 1-4 under the key modifiers none/not/str/int/flt/all/of), mapping key; ~170 \
         hand-written degenerate strings (lone quote/minus/star, keyword fragments, multi-byte characters next to \
-        keywords, unbalanced and 64-deep parentheses, 300-digit numbers, pathological regexes) in all roles; sampled \
+        keywords, unbalanced and 64-deep parentheses, 300-digit numbers, pathological regexes) in all roles, plus \
+        8 MiB pattern lists that exceed the state limit of one dense automaton; sampled \
         part: random printable / unicode strings in all roles and as whole rule text, arbitrary YAML value trees \
         (every scalar kind, sequences, mappings with non-string keys, tags, depth <= 5) as whole rule and substituted \
         into a random position of a valid rule, nesting 1..64 deep. Each input goes through String::tokenise, \
@@ -517,6 +567,11 @@ pub fn run(tier: &str, seed: u64) -> i32 {
             m.insert("detection".into(), v.clone());
             cases.push(text_case("c04.yaml", serde_yaml::to_string(&Y::Mapping(m)).unwrap()));
         }
+    }
+    // pattern text beyond what one dense automaton can hold (just above the limit, so that the
+    // build fails before anything large is allocated)
+    for desc in ["list:8389632", "all_list:8389632", "ci_single:8389632", "two_entries:8391680", "list:65536"] {
+        cases.push(text_case("c04.huge", desc.to_string()));
     }
     report.label_n("exhaustive_and_degenerate_cases", cases.len() as u64);
     let subs: Vec<Report> = par_run(|w, n| {
